@@ -159,7 +159,7 @@ func init() {
 		r.Set("error_alternative_grammars", len(eitems))
 		r.Set("base_grammars", len(sel))
 		r.Set("sequence_bound", n)
-		r.Set("rule", "compiled unmodified parsers of conflict-free base grammars x four action assignments (explicit $i, $Ti on terminals, none = defaults, mixed) : every sentence up to the bound, under three Context values (recorder, nil, a second object): action-call log (alternative, arguments, token POINTER identity) and result against post-order evaluation of the parse tree; then every choice of which action occurrence fails: Parse must return an error carrying it, exactly that many actions ran, no Scan afterwards - this error clause also on grammars WITH error alternatives, over every token sequence (not only sentences); distinct = (grammar, call sequence, result)")
+		r.Set("rule", "compiled unmodified parsers of conflict-free base grammars x four action assignments (explicit $i, $Ti on terminals, none = defaults, mixed) plus, for a quarter of the grammars, actions carrying a Go literal (blanks, TAB, line break in a raw string, format verbs, template syntax, quotes, non-ASCII) whose value must reach the generated code unaltered : every sentence up to the bound, under three Context values (recorder, nil, a second object): action-call log (alternative, arguments, token POINTER identity) and result against post-order evaluation of the parse tree; then every choice of which action occurrence fails: Parse must return an error carrying it, exactly that many actions ran, no Scan afterwards - this error clause also on grammars WITH error alternatives, over every token sequence (not only sentences); distinct = (grammar, call sequence, result)")
 		return r.Finish(nil)
 	}
 }
